@@ -12,6 +12,11 @@ FMT_WIDTH = {'B': 1, 'H': 2, 'I': 4, 'Q': 8}
 def _const(e):
     if isinstance(e, ast.Constant) and isinstance(e.value, int) and not isinstance(e.value, bool):
         return e.value
+    if isinstance(e, ast.BinOp) and isinstance(e.op, (ast.Add, ast.Sub, ast.Mult, ast.LShift)):
+        # constant arithmetic (`1 + 2`, what a table-driven `1 + width` is once the table is read back)
+        a, b = _const(e.left), _const(e.right)
+        if a is not None and b is not None and not (isinstance(e.op, ast.LShift) and not 0 <= b <= 64):
+            return {ast.Add: a + b, ast.Sub: a - b, ast.Mult: a * b, ast.LShift: a << b if 0 <= b <= 64 else 0}[type(e.op)]
     return None
 
 
@@ -171,6 +176,15 @@ def _inline_arith_locals(fn):
     for x in ast.walk(fn):
         if isinstance(x, ast.Name) and isinstance(x.ctx, (ast.Store, ast.Del)):
             stores[x.id] = stores.get(x.id, 0) + 1
+    # a local bound in several arms to the same expression (a hoisted binding copied into each arm of a table read back as a chain)
+    # counts as bound once
+    same = {}
+    for x in ast.walk(fn):
+        if isinstance(x, ast.Assign) and len(x.targets) == 1 and isinstance(x.targets[0], ast.Name):
+            same.setdefault(x.targets[0].id, []).append(ast.unparse(x.value))
+    for nm, texts in same.items():
+        if stores.get(nm) == len(texts) and len(set(texts)) == 1:
+            stores[nm] = 1
     params = {a.arg for a in fn.args.posonlyargs + fn.args.args + fn.args.kwonlyargs}
     env = {}
     for x in ast.walk(fn):
